@@ -48,6 +48,17 @@ class FuncInfo:
       ps = ps[1:]
     return ps
 
+  def view(self, depth=3, keep=()):
+    """This function with its private helpers expanded (sa/inline.py view):
+    the same statements whether the work sits in the function or in helpers."""
+    cache = self.__dict__.setdefault('_views', {})
+    key = (depth, tuple(sorted(keep)))
+    if key not in cache:
+      from sa import inline
+      cache[key] = inline.view(self.node, self.cls.node if self.cls else None,
+                               self.module.tree, depth, keep)
+    return cache[key]
+
   def is_static(self):
     for d in self.node.decorator_list:
       if isinstance(d, ast.Name) and d.id == 'staticmethod':
@@ -391,6 +402,15 @@ def norm(node):
   return ast.unparse(node)
 
 
+def preorder(node):
+  """Depth-first, field order: statements in program order, sub-expressions in
+  (approximately) evaluation order -- independent of recorded positions, which
+  the normalising pre-pass does not preserve."""
+  yield node
+  for ch in ast.iter_child_nodes(node):
+    yield from preorder(ch)
+
+
 def walk_no_nested(node, include_self=False):
   """ast.walk that does not descend into nested defs/lambdas/classes."""
   todo = list(ast.iter_child_nodes(node)) if not include_self else [node]
@@ -562,6 +582,26 @@ class Report:
       if k.get('status', 'known') != 'known':
         continue   # "fixed" entries suppress nothing
       if k['rule'] == v['rule'] and k['key'] == v['site']:
+        return k
+    # the listed construct sits in a private helper that is gone, and the same
+    # construct is now reported in a function that used to call that helper
+    # (the helper was inlined into its caller): still the listed finding
+    for k in self.known:
+      if k.get('status', 'known') != 'known' or k['rule'] != v['rule']:
+        continue
+      kp, vp = k['key'].split(':', 2), v['site'].split(':', 2)
+      if len(kp) != 3 or len(vp) != 3 or kp[0] != vp[0] or kp[2] != vp[2]:
+        continue
+      if not kp[1].split('.')[-1].startswith('_'):
+        continue
+      try:
+        self.model.func(kp[0], kp[1])
+        continue                       # the helper still exists: no relocation
+      except AnalysisError:
+        pass
+      from sa import inline
+      callers = inline.known_shapes(kp[0]).get(kp[1], {}).get('callers', [])
+      if vp[1] in callers:
         return k
     return None
 
